@@ -48,7 +48,7 @@ META = dict(
     stubs=['SymStream + struct model for the lead-in kernel', 'int()/isinstance/range on symbolic ints'],
     assumptions=['file bytes come from the independent encoder vf/tdmsmodel.py'],
     buckets=dict(all=['file-read', 'interleaved', 'big-endian', 'multi-chunk', 'properties', 'leadin-complete', 'leadin-incomplete',
-                      'leadin-eof', 'chunks-exact', 'chunks-partial']),
+                      'leadin-eof', 'chunks-exact', 'chunks-partial', 'index-stream-kernel']),
     replays_per_signature=3,
     validate_samples=10,
 )
@@ -68,6 +68,8 @@ def tasks(tier, seed):
                     ts.append(dict(kind='file', ta=ta, inter=inter, big=big, struct=struct_, S=S, tier=tier))
     ts.append(dict(kind='leadin', big=False))
     ts.append(dict(kind='leadin', big=True))
+    for big in (False, True):
+        ts.append(dict(kind='kc', S=2, big=big, lazy=big))
     for inter in (False, True):
         for incomplete in (False, True):
             for k in ((1, 2) if tier == 'quick' else (1, 2, 3)):
@@ -288,8 +290,147 @@ def _run_chunks(task):
     return st
 
 
+# ----------------------------------------------------------------------------- (Kc) metadata walk over an index stream, symbolic sizes
+KC_TYPES = [(3, 4), (2, 2), (4, 8), (10, 8), (0x44, 16)]
+KC_KINDS = ['full', 'same', 'nodata', 'unlisted']
+
+
+def _run_kc(task):
+    """Real TdmsReader.read_metadata on an index-form stream (TDSh, no raw data) of S segments x 2 channels whose value counts,
+    next-segment and raw-data offsets and an integer property are SYMBOLIC and unbounded; chunk counts are a solver-driven
+    choice (<= 3).  Oracle: the format's inheritance rules and length arithmetic, stated independently below."""
+    from collections import OrderedDict
+    from nptdms.reader import TdmsReader
+    S, big = task['S'], task['big']
+    paths = ["/'g'/'c0'", "/'g'/'c1'"]
+
+    def fn(ctx):
+        b = Builder()
+        E = '>' if big else '<'
+        last = {}                   # path -> (tcode, size, nv term)   last full index (file-wide)
+        active, hd = [], {}
+        expect_len = {p: 0 for p in paths}
+        expect_pos, pos = [], 0
+        prop_last = None
+        segs = []
+        for s in range(S):
+            meta = True if s == 0 else bool(ctx.choice('meta%d' % s, 2))
+            newobj = True if s == 0 else bool(ctx.choice('newobj%d' % s, 2))
+            toc = (2 if meta else 0) | (4 if (newobj and meta) else 0) | 8 | (64 if big else 0)
+            b.raw(b'TDSh')
+            b.field(toc, 4, '<')
+            b.field(4713, 4, E)
+            nso = ctx.int('nso%d' % s, 0, 2 ** 62)
+            rdo = ctx.int('rdo%d' % s, 0, 2 ** 62)
+            b.field(nso, 8, E)
+            b.field(rdo, 8, E)
+            m0 = b.pos
+            if meta:
+                if newobj:
+                    active, hd = [], {}
+                else:
+                    active, hd = list(active), dict(hd)
+                listed = []
+                for k, p in enumerate(paths):
+                    kinds = ['full'] + (['same'] if p in last else []) + ['nodata'] + (['unlisted'] if s > 0 or k > 0 else [])
+                    kind = kinds[ctx.choice('kind%d_%d' % (s, k), len(kinds))]
+                    if kind != 'unlisted':
+                        listed.append((p, kind, k))
+                b.field(len(listed), 4, E)
+                for (p, kind, k) in listed:
+                    pb = p.encode()
+                    b.field(len(pb), 4, E)
+                    b.raw(pb)
+                    if kind == 'full':
+                        if p in last:
+                            tcode, size = last[p][0], last[p][1]
+                        else:
+                            tcode, size = KC_TYPES[ctx.choice('type%d' % k, len(KC_TYPES))]
+                        nv = ctx.int('nv%d_%d' % (s, k), 0, 2 ** 40)
+                        b.field(20, 4, E)
+                        b.field(tcode, 4, E)
+                        b.field(1, 4, E)
+                        b.field(nv, 8, E)
+                        last[p] = (tcode, size, nv)
+                        hd[p] = True
+                    elif kind == 'same':
+                        b.field(0, 4, E)
+                        hd[p] = True
+                    else:
+                        b.field(0xFFFFFFFF, 4, E)
+                        hd[p] = False
+                    if p not in active:
+                        active.append(p)
+                    if k == 0 and kind != 'unlisted':
+                        # one integer property with a symbolic value, its width a choice
+                        w = [(3, 4, True), (4, 8, True), (8, 8, False), (2, 2, True)][ctx.choice('pw%d' % s, 4)]
+                        lo, hi = (-(2 ** (8 * w[1] - 1)), 2 ** (8 * w[1] - 1) - 1) if w[2] else (0, 2 ** (8 * w[1]) - 1)
+                        pv = ctx.int('prop%d' % s, lo, hi)
+                        b.field(1, 4, E)
+                        b.field(1, 4, E)
+                        b.raw(b'p')
+                        b.field(w[0], 4, E)
+                        b.field(SymInt.mk(z3.If(pv.e < 0, pv.e + 2 ** (8 * w[1]), pv.e)) if w[2] else pv, w[1], E)
+                        prop_last = pv
+                    else:
+                        b.field(0, 4, E)
+            meta_len = b.pos - m0
+            dobjs = [(p, last[p]) for p in active if hd.get(p) and p in last]
+            if any(hd.get(p) and p not in last for p in active):
+                raise PathAbort()             # forbidden encoding (no index defined): covered by C02
+            chunk = sum((ex(nv) * size for (_, (t, size, nv)) in dobjs), z3.IntVal(0))
+            nc = ctx.choice('nc%d' % s, 4)
+            ctx.add(ex(rdo) == meta_len)
+            ctx.add(ex(nso) == meta_len + chunk * nc)
+            if nc > 0:
+                ctx.add(chunk > 0)
+            for (p, (t, size, nv)) in dobjs:
+                expect_len[p] = expect_len[p] + ex(nv) * nc
+            segs.append(dict(nc=nc, chunk=chunk, pos=pos, data_pos=pos + 28 + meta_len, active=list(active)))
+            pos = pos + 28 + ex(nso)
+        f = SymStream(b.regions)
+        r = TdmsReader.__new__(TdmsReader)
+        r._file_path = None
+        r._index_file_path = None
+        r._file = None
+        r._index_file = f
+        r._segments = None
+        r._prev_segment_objects = {}
+        r.object_metadata = OrderedDict()
+        r._segment_channel_offsets = {}
+        r.tdms_version = None
+        r._data_file_size = None
+        r.read_metadata(require_segment_indexes=bool(task.get('lazy')))
+        if len(r._segments) != S:
+            ctx.fail('kc-segment-count', got=len(r._segments), expected=S)
+        conj = []
+        for sg, m in zip(r._segments, segs):
+            conj.append(ex(sg.position) == m['pos'])
+            conj.append(ex(sg.data_position) == m['data_pos'])
+            conj.append(z3.Implies(m['chunk'] > 0, ex(sg.num_chunks) == m['nc']))
+            if [o.path for o in sg.ordered_objects] != m['active']:
+                ctx.fail('kc-object-list', got=[o.path for o in sg.ordered_objects], expected=m['active'])
+        for p in paths:
+            if p in r.object_metadata:
+                conj.append(ex(r.object_metadata[p].num_values) == expect_len[p])
+                if p in last and r.object_metadata[p].data_type is not None:
+                    if r.object_metadata[p].data_type.enum_value != last[p][0]:
+                        ctx.fail('kc-type', path=p)
+            elif any(p in m['active'] for m in segs):
+                ctx.fail('kc-missing-object', path=p)
+        if prop_last is not None:
+            got = r.object_metadata[paths[0]].properties.get('p')
+            conj.append(ex(got) == prop_last.e)
+        ctx.prove(z3.And(*conj), what='kc-lengths-positions')
+        ctx.note('index-stream-kernel')
+
+    st = explore(fn, max_paths=60000, time_budget=1500)
+    st.pop('wall_s', None)
+    return st
+
+
 def run_task(task):
-    return dict(file=_run_file, leadin=_run_leadin, chunks=_run_chunks)[task['kind']](task)
+    return dict(file=_run_file, leadin=_run_leadin, chunks=_run_chunks, kc=_run_kc)[task['kind']](task)
 
 
 def signature(c):
